@@ -33,7 +33,8 @@ PROPS = {
     "C06": model("TestC06Model", 2500, 12000, wire="TestC06Wire"),
     "C07": model("TestC07Model", 2000, 10000, wire="TestC07Wire"),
     "C08": {"level": "fault_enumeration", "assumptions": MODEL_ASSUME + ["wire driver: real http.Server + x/net/websocket + websocket.Handle with the production decorators over net.Pipe; net.Pipe has no buffering (stricter than TCP)", "a goroutine blocked on a sync.Mutex is not durably blocked for synctest: a wedge on a lock shows as a real-time timeout, which the driver re-runs alone and reports only if it does not terminate again"],
-            "parts": [H("TestC08Hostile", "W", 500, 6000, qs=2, ts=16, hang_is_violation=True), H("TestC08Burst", "Wburst", 1500, 10000, qs=2, ts=16, hang_is_violation=True)]},
+            "parts": [H("TestC08Hostile", "W", 500, 6000, qs=2, ts=16, hang_is_violation=True), H("TestC08Burst", "Wburst", 1500, 10000, qs=2, ts=16, hang_is_violation=True),
+                      H("TestC08IdleRace", "Wtie", 600, 5000, qs=1, ts=16, hang_is_violation=True)]},
     "C10": model("TestC10Model", 2500, 10000, wire="TestC10Wire"),
     "C11": model("TestC11Model", 2500, 15000, wire="TestC11Wire"),
     "C12": model("TestC12Model", 3000, 25000, wire="TestC12Wire"),
